@@ -1,8 +1,8 @@
 #!/bin/sh
 # usage: confirm_seed.sh <ID>  — confirm a candidate seeded change delivered in /tmp/seed2/<ID> (patch.diff, demo.cpp)
-# against its scratch worktree /tmp/seedwt_<ID>: the patch is what the worktree contains, the repo's tests pass
+# against its scratch worktree /tmp/seedwt_<ID> (or $SEEDWT; $SEEDBASE overrides /tmp/seed2): the patch is what the worktree contains, the repo's tests pass
 # with it, the demo exits 0 on /repo's headers and non-zero on the changed headers.
-ID=$1; W=/tmp/seedwt_$ID; S=${SEEDBASE:-/tmp/seed2}/$ID
+ID=$1; W=${SEEDWT:-/tmp/seedwt_$ID}; S=${SEEDBASE:-/tmp/seed2}/$ID
 git -C $W diff > ${SEEDBASE:-/tmp/seed2}/$ID.wt.diff
 cmp -s ${SEEDBASE:-/tmp/seed2}/$ID.wt.diff $S/patch.diff && echo "patch == worktree diff" || echo "patch differs from worktree diff (using worktree state)"
 git -C /repo apply --check $S/patch.diff && echo "applies to /repo HEAD"
